@@ -46,7 +46,7 @@ COMPONENTS = {
 ASSUMPTIONS = ['two threads never import the same module (import-system module locks stay real and are avoided, not modelled)',
                'torn or bit-flipped pyc contents and same-mtime-same-size edits are not injected (CPython itself does not survive them)',
                'concurrency between *processes* on one cache directory is not simulated']
-PROBES = ['reconf_between_runs', 'edits', 'crashes', 'threaded_runs', 'preempted_runs', 'cache_hits', 'hooked_and_unhooked_concurrently', 'failed_imports',
+PROBES = ['no_write_runs', 'reconf_between_runs', 'edits', 'crashes', 'threaded_runs', 'preempted_runs', 'cache_hits', 'hooked_and_unhooked_concurrently', 'failed_imports',
           'pyc_files_checked', 'scoped_runs', 'reexec_after_hook_off']
 
 PKG = 'c16pkg'
@@ -214,6 +214,8 @@ def generate(rng, run, tier):
                     'import_order': rng.sample(range(nmods), nmods)}
         if rng.random() < 0.12:
             run_spec['crash_at'] = rng.randint(5, 1500)
+        if rng.random() < 0.15:
+            run_spec['no_write'] = True
         if hook != 'off' and threads is None and rng.random() < 0.3:
             # the hook is switched on and off again *inside* the run: 'with beartyping(conf)' around the first k imports,
             # the others imported after the block; some modules of the block re-executed afterwards through the spec
@@ -328,7 +330,8 @@ def interpreter_run(root, mods, rs, traced=True):
     old_path = list(sys.path)
     old_dwb = sys.dont_write_bytecode
     sys.path.insert(0, root)
-    sys.dont_write_bytecode = False
+    # (a run may have bytecode writing switched off - python -B, PYTHONDONTWRITEBYTECODE -: it still *reads* caches)
+    sys.dont_write_bytecode = bool(rs.get('no_write'))
     obs = {'mods': {}, 'crashed': False}
     steps = 0
     digest = 0
@@ -528,6 +531,8 @@ def _execute(case, runner):
                     probes['hooked_and_unhooked_concurrently'] += 1
             if obs.get('crashed'):
                 probes['crashes'] += 1
+            if rs.get('no_write'):
+                probes['no_write_runs'] += 1
             probes['failed_imports'] += sum(1 for v in obs.get('mods', {}).values() if isinstance(v, dict) and 'import_error' in v)
             if rs.get('scoped') and rs['hook'] != 'off':
                 probes['scoped_runs'] += 1
